@@ -29,6 +29,9 @@ func init() { fw.Register("C13", func() fw.Property { return &c13{} }) }
 func (p *c13) ID() string       { return "C13" }
 func (p *c13) Exhaustive() bool { return true }
 
+// CPUBudget: a round of 16 concurrent callers burns CPU on 16 threads at once.
+func (p *c13) CPUBudget() float64 { return 90 }
+
 type escaper struct {
 	name   string
 	fn     func(string) string
@@ -60,9 +63,9 @@ func (p *c13) Init(tier string, seed int64) {
 		// ... and beginnings an escaper might be tempted to recognise
 		"http://", "https://", "//", "javascript:", "data:", "mailto:", "&#", "&#x", "\\u", "\\x", "\\0", "%%25", "?a=b&c=d", "<!--", "]]>",
 	}
-	p.bounds = []int{64, 128, 256, 512, 1024, 2048, 4096, 8192}
+	p.bounds = []int{64, 128, 256, 512, 1024, 2048, 4096, 8192, 32768, 65536}
 	if p.thorough() {
-		p.bounds = append(p.bounds, 16384, 32768, 65536, 1<<17)
+		p.bounds = append(p.bounds, 16384, 1<<17)
 	}
 	p.nPairs = len(p.alpha)
 	p.nRand = p.pick(20000, 400000)
@@ -71,12 +74,18 @@ func (p *c13) Init(tier string, seed int64) {
 }
 
 func (p *c13) N() int {
-	return p.nBlocks + 1 + p.nPairs + p.nAlias + p.nRand + 15*len(p.bounds) + c13Conc
+	return p.nBlocks + 1 + p.nPairs + p.nAlias + p.nRand + 15*len(p.bounds) + c13Conc + 1
 }
 
 // c13LongChars stand at every offset around a power of two in a long value: where an implementation that works
 // through a buffer or in chunks starts a new one, each of these has its longest escape sequence cut in two.
-var c13LongChars = []string{"\U0001F600", "\U0010FFFF", "<", "\n", "é", "\u2028", "&", "%", "\\", "\xff"}
+var c13LongChars = []string{"\U0001F600", "\U0010FFFF", "<", "\n", "é", "\u2028", "&", "%", "\\", "\xff", "\"", "'", "\x00", "+", " "}
+
+// c13Whole: strings that mean something as a whole - numbers in every spelling, keywords, addresses. An escaper
+// substitutes characters; what the characters add up to is none of its business.
+var c13Whole = []string{"0", "-1", "+1", "1.5", ".5", "5.", "1e5", "1e+5", "2E+10", "1E-3", "0x1p+4", "0x1F", "1_000", "1,000.50", "Inf", "+Inf", "NaN", "1e+", "e+5", "12+34", "1+1=2",
+	"true", "false", "null", "nil", "undefined", "http://a.b/c?d=e&f=g#h", "https://h", "//h/p", "mailto:a@b.c", "a@b.c", "javascript:alert(1)", "data:text/html,<b>", "2021-03-04T05:06:07+01:00", "+49 30 123",
+	"{\"a\": [1, 2]}", "[1, 2]", "<!DOCTYPE html>", "<?xml version=\"1.0\"?>", "&copy;", "&#169;", "&#xA9;", "\\u00e9", "%C3%A9", "a+b", "a b", "a%20b", "100%", "%", "%%", "%zz", "\\", "\\\\n"}
 
 // c13Conc rounds of concurrent callers: an escaper is a function of its input, whoever else is calling it (or
 // another escaper) at the same moment.
@@ -102,7 +111,7 @@ func (p *c13) runConcurrent(res *fw.Result, round int) {
 		wg.Add(1)
 		go func(g int) {
 			defer wg.Done()
-			for it := 0; it < 400 && bad[g] == ""; it++ {
+			for it := 0; it < 150 && bad[g] == ""; it++ {
 				for k := range inputs {
 					i := (k*7 + g*5 + it) % len(inputs)
 					e := (k + g + it) % len(escapers)
@@ -115,8 +124,8 @@ func (p *c13) runConcurrent(res *fw.Result, round int) {
 		}(g)
 	}
 	wg.Wait()
-	res.Evals += G * 400 * len(inputs)
-	res.AddObs("concurrent_escapes", int64(G*400*len(inputs)))
+	res.Evals += G * 150 * len(inputs)
+	res.AddObs("concurrent_escapes", int64(G*150*len(inputs)))
 	res.AddClass("concurrent-callers")
 	res.UniqueNT = 1
 	for _, b := range bad {
@@ -172,6 +181,8 @@ func (p *c13) Describe(i int) interface{} {
 	case i < p.nBlocks+1+p.nPairs+p.nAlias:
 		b := (i - p.nBlocks - 1 - p.nPairs) * c13Block
 		return map[string]interface{}{"kind": "aliasing-pairs", "from": fmt.Sprintf("U+%04X", b), "to": fmt.Sprintf("U+%04X", b+c13Block-1), "partners": "c+0x10000, c+0x100000, c&0xFF, c>>8, c^0x80; both orders, adjacent and separated"}
+	case i == p.nBlocks+1+p.nPairs+p.nAlias+p.nRand+15*len(p.bounds)+c13Conc:
+		return map[string]interface{}{"kind": "whole-strings", "strings": len(c13Whole)}
 	case i >= p.nBlocks+1+p.nPairs+p.nAlias+p.nRand+15*len(p.bounds):
 		return map[string]interface{}{"kind": "concurrent-callers", "goroutines": 16, "round": i - (p.nBlocks + 1 + p.nPairs + p.nAlias + p.nRand + 15*len(p.bounds))}
 	case i >= p.nBlocks+1+p.nPairs+p.nAlias+p.nRand:
@@ -351,6 +362,20 @@ func (p *c13) Run(i int) (res fw.Result) {
 			}
 		}
 		res.AddClass("aliasing-block")
+	case i == p.nBlocks+1+p.nPairs+p.nAlias+p.nRand+15*len(p.bounds)+c13Conc:
+		for _, w := range c13Whole {
+			for split := 0; split <= len(w); split++ {
+				if split < len(w) && !utf8.RuneStart(w[split]) {
+					continue
+				}
+				for k := range escapers {
+					p.checkString(&res, &escapers[k], w, split)
+					res.Evals++
+				}
+			}
+		}
+		res.AddClass("whole-strings")
+		res.UniqueNT = 1
 	case i >= p.nBlocks+1+p.nPairs+p.nAlias+p.nRand+15*len(p.bounds):
 		p.runConcurrent(&res, i-(p.nBlocks+1+p.nPairs+p.nAlias+p.nRand+15*len(p.bounds)))
 	case i >= p.nBlocks+1+p.nPairs+p.nAlias+p.nRand:
@@ -384,7 +409,7 @@ func (p *c13) Run(i int) (res fw.Result) {
 }
 
 func (p *c13) Rule() string {
-	return "exhaustive: every Unicode scalar value U+0000..U+10FFFF and every byte 0x80..0xFF as a one-character string, and every ordered pair over an 84-symbol boundary alphabet (20 multi-character tokens that look like escaper output: &amp; &lt; &#39; &#x27; \\u0041 \\x41 %41 ...; hex digits, non-hex letters, white space, backslash, & # ; % u x, quotes, NUL, DEL, C1 controls, plane boundaries, U+2028/9, invalid bytes), each through all 5 escapers; for every BMP code point >= U+0080 (quick: every third) the strings pairing it, in both orders, adjacent and separated, with the code points that share its low bits (c+0x10000, c+0x100000, c&0xFF, c>>8, c^0x80); long values (a run of letters, also behind a few characters that expand, up to every offset within 12 bytes of 2^6..2^13 (thorough: ..2^17), then an astral character / a character with a long escape, digits and another such character) against buffer and chunk boundaries; plus seeded random strings (length<=200) over that alphabet and random Unicode, a quarter of them also fed back in after escaping (5x5 escaper cross product). plus 6 rounds of 16 concurrent callers (each call must return what it returns alone). Oracles: output matches the escaper's inert grammar; the standard decoder of the target context (HTML5 character references, ECMAScript string escapes with surrogate pairing, CSS Syntax 3 escapes, RFC 3986 percent-decoding) gives the input back for valid UTF-8 (html_attr: control characters stand for their deliberate replacement); escape(a+b)=escape(a)+escape(b). Non-trivial = the escaper changed the input; enumerated cases are distinct by construction, random strings are deduplicated by content."
+	return "exhaustive: every Unicode scalar value U+0000..U+10FFFF and every byte 0x80..0xFF as a one-character string, and every ordered pair over an 84-symbol boundary alphabet (20 multi-character tokens that look like escaper output: &amp; &lt; &#39; &#x27; \\u0041 \\x41 %41 ...; hex digits, non-hex letters, white space, backslash, & # ; % u x, quotes, NUL, DEL, C1 controls, plane boundaries, U+2028/9, invalid bytes), each through all 5 escapers; for every BMP code point >= U+0080 (quick: every third) the strings pairing it, in both orders, adjacent and separated, with the code points that share its low bits (c+0x10000, c+0x100000, c&0xFF, c>>8, c^0x80); long values (a run of letters, also behind a few characters that expand, up to every offset within 12 bytes of 2^6..2^13, 2^15 and 2^16 (thorough also 2^14, 2^17), then an astral character / a character with a long escape, digits and another such character) against buffer and chunk boundaries; plus seeded random strings (length<=200) over that alphabet and random Unicode, a quarter of them also fed back in after escaping (5x5 escaper cross product). 53 strings that mean something as a whole (numbers in every spelling, keywords, URLs, dates, JSON, entity-like and escape-like text), split at every position; plus 6 rounds of 16 concurrent callers (each call must return what it returns alone). Oracles: output matches the escaper's inert grammar; the standard decoder of the target context (HTML5 character references, ECMAScript string escapes with surrogate pairing, CSS Syntax 3 escapes, RFC 3986 percent-decoding) gives the input back for valid UTF-8 (html_attr: control characters stand for their deliberate replacement); escape(a+b)=escape(a)+escape(b). Non-trivial = the escaper changed the input; enumerated cases are distinct by construction, random strings are deduplicated by content."
 }
 
 func (p *c13) Assumptions() []string {
